@@ -92,7 +92,8 @@ def infer_redirection(url, recursive=True):
                     target = target[len("http://") :]
 
             # Idiotic youtube redirections
-            elif "youtube.com/redirect?" in url:
+            # NOTE: a host is case-insensitive
+            elif "youtube.com/redirect?" in url.lower():
                 target = "https://" + potential_target
 
     if target is None:
